@@ -141,17 +141,18 @@ func lemmaEncapDecap(d DHCPv6, mType MessageType, link, peer net.IP) {
 //@ contract GenerateTransactionID
 //@   trusted
 
-// NewMessage without modifiers: a fresh SOLICIT without options
+// NewMessage without modifiers: a fresh SOLICIT without options whose transaction id is the one the generator returned
 //@ contract NewMessage
 //@   unroll 1
 //@   requires len(modifiers) == 0
 //@   ensures (err == nil) == (result0 != nil)
 //@   ensures err == nil ==> fresh(result0) && int(result0.MessageType) == 1 && result0.Options.Options == nil
+//@   ensures[generated-xid] err == nil ==> result0.TransactionID[0] == callresult("GenerateTransactionID", 0)[0] && result0.TransactionID[1] == callresult("GenerateTransactionID", 0)[1] && result0.TransactionID[2] == callresult("GenerateTransactionID", 0)[2]
 
 //@ define ianaTyped(o) = forall j int :: {o[j]} 0 <= j && j < len(o) && o[j].Code() == 3 ==> typeIs(o[j], *OptIANA) && o[j].(*OptIANA) != nil
 
 // NewRequestFromAdvertise: accepted only for an ADVERTISE with client identifier, server identifier and IA_NA; the
-// REQUEST (new transaction id) carries, in this order, those very client-identifier and server-identifier options, an
+// REQUEST is the message NewMessage returned, with the transaction id it had then (a newly generated one), and carries, in this order, those very client-identifier and server-identifier options, an
 // elapsed-time option, that very IA_NA, then the IA_PD if the ADVERTISE has one, the option request and the vendor class
 //@ contract NewRequestFromAdvertise
 //@   unroll 1
@@ -162,6 +163,7 @@ func lemmaEncapDecap(d DHCPv6, mType MessageType, link, peer net.IP) {
 //@   ensures[reject-sid] adv != nil && old(noneWithCode(adv.Options.Options, 2)) ==> err != nil
 //@   ensures[reject-iana] adv != nil && old(noneWithCode(adv.Options.Options, 3)) ==> err != nil
 //@   ensures[request] err == nil ==> result0 != nil && fresh(result0) && int(result0.MessageType) == 3 && len(result0.Options.Options) >= 5
+//@   ensures[new-xid] err == nil ==> result0 == callresult("NewMessage", 0) && string(result0.TransactionID[:]) == aftercall("NewMessage", string(callresult("NewMessage", 0).TransactionID[:]))
 //@   ensures[client-id] err == nil ==> (forall i int :: {adv.Options.Options[i]} firstWithCode(adv.Options.Options, 1, i) ==> result0.Options.Options[0] == adv.Options.Options[i])
 //@   ensures[server-id] err == nil ==> (forall i int :: {adv.Options.Options[i]} firstWithCode(adv.Options.Options, 2, i) ==> result0.Options.Options[1] == adv.Options.Options[i])
 //@   ensures[elapsed] err == nil ==> result0.Options.Options[2].Code() == 8
